@@ -1,6 +1,7 @@
 package np
 
 import (
+	"fmt"
 	"strings"
 
 	"golang.org/x/tools/go/ssa"
@@ -150,13 +151,22 @@ func propC11(c *Ctx) {
 			), "!IsResolutionRequired || Resolve()==nil")
 			// every successful return (nil error) follows sendUDP == nil
 		}
-		// a nil-error return is reachable only through the edge sendUDP(...) == nil
+		// a nil-error return is reachable only through the edge sendUDP(...) == nil and reports the whole payload
+		nOK := 0
 		for _, s := range Sites(fn) {
-			if s.Kind != "return" {
+			if s.Kind != "return" || len(s.Args) != 3 || s.Args[2] != "nil" {
 				continue
 			}
-			// returns are phi-rendered in functions with defers; use the store to the result instead
+			nOK++
+			sent := false
+			for _, g := range s.Guards {
+				if strings.HasPrefix(g, "(nil == udp.sendUDP(") {
+					sent = true
+				}
+			}
+			c.Check(sent && s.Args[0] == "builtin:len("+payload+"#0)", u5, FuncName(fn)+"/success-only-after-send:"+s.Args[0], c.pos(s.Instr), "success is reported only after sendUDP returned nil, with the payload's length", "Write reports success ("+strings.Join(s.Args, ", ")+") on a path that did not send the datagram (guards: "+strings.Join(s.Guards, " && ")+"): the datagram is silently not emitted")
 		}
+		c.Check(nOK == 1, u5, FuncName(fn)+"/one-success-return", c.P.Pos(fn.Pos()), "one success return", fmt.Sprintf("%d success returns", nOK))
 		n := 0
 		Instrs(fn, func(in ssa.Instruction) {
 			st, ok := in.(*ssa.Store)
